@@ -1051,3 +1051,51 @@ def lazy_eager_details(ctx: Ctx, rule: str) -> None:
     ctx.record(rule + "v", "TABLE", fref, "per-vm parse_composite_objects of a net's components", ok, {"calls": len(calls), "guarded": guarded},
                "" if ok else "the eager parse of a worker's objects lets the empty product of ONE vm (even one no selected test uses) escape: the worker loses all its tests, "
                "while lazy parsing drops only the tests that use that vm")
+
+
+def dependency_table(ctx: Ctx, rule: str) -> None:
+    """get_and_parse_nodes_from_composite_node_and_object as a decision table: when nothing is needed, when an attached or an
+    already parsed parent is reused, when parents are parsed afresh and when parsed-and-looked-up."""
+    from ..kinds import TableSpec, table_rule
+
+    views = function_views(ctx, GAPC, names_interesting({"get_dependency", "parse_composite_nodes", "get_and_parse_composite_nodes"}, extra=lambda n: isinstance(n, ast.Return)))
+    for v_ in views:
+        v_.depth = 0  # filtered_parents is narrowed between its tests; the table is over the tests as written
+
+    def M(name, text, neg=False):
+        def m(t):
+            if t == text:
+                return (lambda v: not v[name]) if neg else (lambda v: v[name])
+            return None
+        return m
+
+    matchers = [M("DEP", "object_dependency"), M("CL", "empty(test_node.cloned_nodes)", neg=True), M("UQ", "unique_new_node"),
+                M("HS", "empty(test_node.setup_nodes)", neg=True), M("DN", "dep_node"), M("F1", "len(filtered_parents) == 1"),
+                M("F0", "empty(filtered_parents)"), M("PC", "empty(filtered_parents[0].cloned_nodes)", neg=True)]
+
+    def reference(v):
+        if not v["DEP"]:
+            return "nothing"
+        if (v["CL"] or v["UQ"]) and v["HS"] and v["DN"]:
+            return "attached"
+        if v["F1"]:
+            if v["PC"]:
+                return "clones-of-the-single-candidate"
+            if v["UQ"]:
+                return "the-single-candidate"
+        return "parse" if v["F0"] else "parse-and-lookup"
+
+    spec = TableSpec({k: [True, False] for k in ("DEP", "CL", "UQ", "HS", "DN", "F1", "F0", "PC")}, matchers, reference,
+                     constraint=lambda v: not (v["F1"] and v["F0"]))
+
+    def outcome(view, val, free):
+        if view.path.exit != "return":
+            return view.path.exit
+        t = ast.unparse(view.path.exit_node.value)
+        return {"([], [])": "nothing", "([dep_node], [])": "attached", "(list(filtered_parents[0].cloned_nodes), [])": "clones-of-the-single-candidate",
+                "(filtered_parents, [])": "the-single-candidate"}.get(t) or ("parse" if t.startswith("([], self.parse_composite_nodes(") else
+                                                                             ("parse-and-lookup" if t.startswith("self.get_and_parse_composite_nodes(") else t))
+
+    table_rule(ctx, rule, GAPC, views, spec, outcome, ignore_atoms=lambda a: "object_parents" in a or a.startswith("params is") or "len(filtered_parents) > 1" in a or "1 < len(filtered_parents)" in a,
+               construct="parents of an object's dependency: no `get` -> none; (clone source or unique) with attached setup and a matching attached node -> that node; exactly one parsed candidate -> its clones if it is a clone "
+               "source, itself if unique nodes are wanted; no candidate -> parse afresh; otherwise parse and look up")
